@@ -72,6 +72,7 @@ type c16Plan struct {
 	nEnum int
 	nDict int
 	nFuzz int
+	nRune int
 }
 
 func newC16Plan(tier string) *c16Plan {
@@ -85,12 +86,16 @@ func newC16Plan(tier string) *c16Plan {
 	}
 	p.nEnum = nBatches(p.bs.Size())
 	p.nDict = 1
+	p.nRune = 17 // the BMP in 16 slices + a stride sample of the astral planes
+	if tier == "thorough" {
+		p.nRune = 16 + 64 // every Unicode code point
+	}
 	return p
 }
 
 func (c16) Batches(tier string, seed int64) int {
 	p := newC16Plan(tier)
-	return p.nEnum + p.nDict + p.nFuzz
+	return p.nEnum + p.nDict + p.nFuzz + p.nRune
 }
 
 func (c16) RunBatch(ctx *core.Ctx, batch int) {
@@ -119,6 +124,32 @@ func (c16) RunBatch(ctx *core.Ctx, batch int) {
 		for _, in := range ins {
 			in := in
 			ctx.Case(in, func() { c16Check(ctx, "dict", in) })
+		}
+	case batch >= p.nEnum+p.nDict+p.nFuzz:
+		// every code point (quick: the whole BMP and every 61st astral one) alone, after a word,
+		// inside a word and in field position
+		k := batch - (p.nEnum + p.nDict + p.nFuzz)
+		lo, hi, step := rune(k*0x1000), rune((k+1)*0x1000), rune(1)
+		if k >= 16 {
+			if ctx.Thorough() {
+				lo, hi = rune(0x10000+(k-16)*0x4000), rune(0x10000+(k-15)*0x4000)
+			} else {
+				lo, hi, step = 0x10000, 0x110000, 61
+			}
+		}
+		for r := lo; r < hi; r += step {
+			if r >= 0xd800 && r < 0xe000 {
+				continue
+			}
+			c := string(r)
+			ctx.Count("code_points", 1)
+			if canStartToken(r) {
+				ctx.Count("code_points_token_start", 1)
+			}
+			for _, in := range []string{c, "a " + c, "a" + c + "b", c + ":x", "(" + c + ")"} {
+				in := in
+				ctx.Case(in, func() { c16Check(ctx, "rune", in) })
+			}
 		}
 	default:
 		r := ctx.Rand("fuzz")
@@ -196,6 +227,11 @@ func c16Check(ctx *core.Ctx, kind, in string) {
 		}
 		if len(in)-pos < len(t.Val) || in[pos:pos+len(t.Val)] != t.Val {
 			ctx.Violate("c16:not-a-segmentation:"+t.Typ.String(), "input %q: token %v %q does not match the input at offset %d", in, t.Typ, t.Val, pos)
+			return
+		}
+		// a character that cannot start a token is a lexical error, never the start of a token
+		if fr, _ := utf8.DecodeRuneInString(t.Val); !canStartToken(fr) {
+			ctx.Violate("c16:token-starts-with-bad-character:"+t.Typ.String(), "input %q: token %v %q at offset %d starts with %q (U+%04X), which cannot start a token; no lexical error was raised", in, t.Typ, t.Val, pos, string(fr), fr)
 			return
 		}
 		pos += len(t.Val)
@@ -341,7 +377,8 @@ func (c16) Finish(res *core.Result, cov map[string]any) []string {
 	reasons := []string{}
 	cov["distinct_nontrivial"] = res.NDistinct("nontrivial")
 	cov["exhaustive"] = true
-	cov["rule"] = "every byte string of length <= 3 (quick) / <= 4 (thorough) over a 40-byte alphabet (exhaustive), hostile dictionary strings in lexer-relevant positions, and a seeded byte fuzzer. For each input: cursor walk of the token texts over the input, end-of-input stickiness, token count bound, error-cause recomputation from the bytes, Parse must fail on a lexical error, and a twin lexer driven by a seeded Next/Peek script. Non-trivial = distinct input with >= 2 tokens or a lexical error."
+	cov["rule"] = "every byte string of length <= 3 (quick) / <= 4 (thorough) over a 40-byte alphabet (exhaustive), hostile dictionary strings in lexer-relevant positions, every code point of the BMP and a stride sample of the astral planes (thorough: every code point) alone / after a word / inside a word / in field position / in parentheses, and a seeded byte fuzzer. For each input: cursor walk of the token texts over the input, end-of-input stickiness, token count bound, error-cause recomputation from the bytes, Parse must fail on a lexical error, and a twin lexer driven by a seeded Next/Peek script. Non-trivial = distinct input with >= 2 tokens or a lexical error."
+	floor(res.Counters["code_points"] >= 60000 && res.Counters["code_points_token_start"] >= 1000, &reasons, "code points %d (token starters %d)", res.Counters["code_points"], res.Counters["code_points_token_start"])
 	for _, k := range []string{"error_bad-character", "error_unterminated-quote", "error_unterminated-regexp", "streams_eof", "peeks"} {
 		floor(res.Counters[k] > 0, &reasons, "%s never observed", k)
 	}
